@@ -1229,8 +1229,13 @@ def _convert(I, tname, args, kw):
                 return bytes(*args)
             except (ValueError, TypeError) as e:
                 reraise_native(I, e)
-        if isinstance(v, list):
-            return SymBytes.from_elems(v)
+        if isinstance(v, (list, tuple)):
+            for x in v:
+                if not isinstance(x, (int, SymInt, SymBool)):
+                    I.raise_("TypeError", "'%s' object cannot be interpreted as an integer" % _tn(x))
+                if isinstance(x, Sym) and I.decide(b_or(cmp_op("<", x, 0), cmp_op(">", x, 255)), "bytes()-range"):
+                    I.raise_("ValueError", "bytes must be in range(0, 256)")
+            return SymBytes.from_elems([_i(x) for x in v])
         raise Unsupported("bytes(%r)" % (v,))
     if tname == "list":
         if hasattr(v, "to_list"):
